@@ -622,17 +622,19 @@ def r11_verdict_from_output(ctx):
         raise AnalysisError("no CheckResult construction found in the pandas check backend")
 
 
-def r12_verdict_not_from_report(ctx):
+def r12_verdict_not_from_report(ctx, rule="R12", only=None, which=("pandas",)):
     """The verdict of a core check (CoreCheckResult.passed) never depends on the failure cases built for the report:
     reshape_failure_cases drops nulls by default and reports may be truncated, so `failure_cases.empty` is not `no
     violation`."""
     ix = ctx.ix
     n = 0
-    for bc in schema_backend_classes(ix, which=("pandas",)):
+    for bc in schema_backend_classes(ix, which=which):
         for lst in bc.methods.values():
             for f in lst:
                 res = [c for c in calls_in(f.node) if callee_last(c) == "CoreCheckResult"]
-                if not res or not f.name.startswith("check_"):
+                if not res or not (f.name.startswith("check_") or f.name == "run_check"):
+                    continue   # core checks and the user-check runner: the places where a verdict is formed
+                if only is not None and f.name not in only:
                     continue
                 cfg = cfg_of(f.node)
                 ex = Expander(f.node)
@@ -654,7 +656,7 @@ def r12_verdict_not_from_report(ctx):
                         bad = [e for e in exprs for d in ex.closure(e)
                                if any((isinstance(x, ast.Name) and "failure_case" in x.id) or (isinstance(x, ast.Call) and callee_last(x) == "reshape_failure_cases")
                                       for x in ast.walk(d))]
-                        ctx.ob("R12", f, f"{f.short}: verdict at `{txt(st)[:50]}` does not depend on the failure cases", not bad,
+                        ctx.ob(rule, f, f"{f.short}: verdict at `{txt(st)[:50]}` does not depend on the failure cases", not bad,
                                "decided from the data / schema only" if not bad else
                                f"the verdict is decided under / from `{txt(bad[0])[:70]}`, which derives from the failure cases of the report: "
                                "reshape_failure_cases drops null rows, so duplicates or violations that consist of nulls leave an empty report and pass",
